@@ -13,7 +13,7 @@
     MUTUALLY, on a C12 cache state [s] and a handshake world [w] in S34's refinement relation
     [CacheHandshake.RH] (same certificates, same order, C12's invariant):
       [hello_of] : the hello of (H) whose h_hit / h_default are what (L)'s [from_cache] answers on s;
-      [env_of]   : the env of (L) whose name_err / qualifies / loaded are what (H) computes in w.
+      [env_of_handshake]   : the env of (L) whose name_err / qualifies / loaded are what (H) computes in w.
 
     1. CONSISTENCY ON THE OVERLAP [od_off_handshake_is_lookup]: with cfg.OnDemand == nil the two
        models give the same answer (same certificate / both an error), for every cache, every
@@ -27,6 +27,7 @@
        Renewal (C04) underneath Handshake's due / expired bits: HandshakeComposeRenew.v. *)
 From CM Require Import Lib.Str Gen.Consts Cache.Model Cache.AMapFacts Cache.Proofs Lookup.Model Lookup.Proofs.
 From CM Require Import System.CacheHandshake.
+From CM Require Export System.HandshakeComposeBase.
 From CM Require Handshake.Model Handshake.Proofs Props.C02.
 From Coq Require Import Arith Lia NArith.
 Open Scope nat_scope.
@@ -74,7 +75,7 @@ Section Compose.
         end
     | None => None
     end.
-  Definition env_of (w : hworld) (h : H.hello) : env :=
+  Definition env_of_handshake (w : hworld) (h : H.hello) : env :=
     Env (match H.h_name h with None => true | Some _ => false end)
         (match H.h_name h with Some n => H.qualifies is_space n | None => true end)
         (loaded_of w h).
@@ -104,8 +105,7 @@ Section Compose.
     exists c : hcert, hconc eh c = cc /\ id_of cc = h_id c /\ H.cache_find (h_id c) w = Some c.
   Proof.
     intros HR Hf.
-    destruct (hit_oracle_from_C03 eh eh_inj names_of lower is_space sup valid cap w s cfg sni ip cc b v HR Hf)
-      as (c & Hc & Hfind & _).
+    edestruct (hit_oracle_from_C03 eh) as (c & Hc & Hfind & _); try first [exact eh_inj | exact HR | exact Hf].
     exists c. split; [exact Hc|]. split; [|exact Hfind].
     unfold id_of. rewrite <- Hc. cbn [hconc c_hash]. apply dh_eh.
   Qed.
@@ -148,7 +148,7 @@ Section Compose.
     let fc := from_cache lower is_space sup valid s cfg sni ip in
     let h := hello_of fc nm m ok vanish in
     H.handshake is_space w h = (own, kids, res, w') ->
-    res_rel res (lookup lower is_space sup valid s cap cfg sni ip (env_of w h)).
+    res_rel res (lookup lower is_space sup valid s cap cfg sni ip (env_of_handshake w h)).
   Proof.
     intros HR Hcap Hod fc h Hh.
     assert (D : H.od_on w = false) by (unfold H.od_on; rewrite Hod; reflexivity).
@@ -168,7 +168,7 @@ Section Compose.
       2:{ unfold H.handshake, H.get_cert in Hh. unfold h at 1 2, hello_of in Hh. cbn [H.h_hit H.h_name] in Hh.
           inv Hh. cbn. exact I. }
       rewrite (od_off_miss w h n own kids res w' Hod eq_refl eq_refl Hh).
-      unfold env_of, loaded_of. cbn [name_err qualifies loaded].
+      unfold env_of_handshake, loaded_of. cbn [name_err qualifies loaded].
       change (H.h_name h) with (Some n). cbn iota.
       destruct (H.qualifies is_space n); cbn [negb]; [|exact I].
       rewrite AF. destruct (almost_full cap (length (cache s))); [|exact FB].
@@ -182,7 +182,7 @@ Section Compose.
       2:{ unfold H.handshake, H.get_cert in Hh. unfold h at 1 2, hello_of in Hh. cbn [H.h_hit H.h_name] in Hh.
           inv Hh. cbn. exact I. }
       rewrite (od_off_miss w h n own kids res w' Hod eq_refl eq_refl Hh).
-      unfold env_of, loaded_of. cbn [name_err qualifies loaded].
+      unfold env_of_handshake, loaded_of. cbn [name_err qualifies loaded].
       change (H.h_name h) with (Some n). cbn iota.
       destruct (H.qualifies is_space n); cbn [negb]; [|exact I].
       rewrite AF. destruct (almost_full cap (length (cache s))); [|exact FB].
@@ -211,30 +211,6 @@ Section Compose.
   (** (H) alone: a certificate matched in the cache that is not (managed and (due or revoked)) is
       served as it is, and the handshake goroutine touches neither policy, storage nor issuer
       (an ARI refresh may run in its own goroutine) *)
-  Lemma maint_not_due LAM w h c held e k r w1 :
-    H.maintenance is_space LAM w h c held = (e, k, r, w1) ->
-    H.due c = false -> H.c_revoked c = false -> e = [] /\ r = H.MCert c.
-  Proof.
-    unfold H.maintenance. intros Hm Hdue Hrev.
-    match type of Hm with (let '(ka, wa) := ?X in _) = _ => destruct X as [ka wa] end.
-    rewrite Hrev, Bool.andb_false_r in Hm. unfold H.renew_if_necessary in Hm. rewrite Hdue in Hm.
-    inv Hm. split; reflexivity.
-  Qed.
-
-  Lemma hit_served_as_is w h id c own kids res w' :
-    H.h_hit h = Some id -> H.cache_find id w = Some c ->
-    H.c_managed c && (H.due c || H.c_revoked c) = false ->
-    H.handshake is_space w h = (own, kids, res, w') ->
-    res = H.RCert (H.c_id c) /\ own = [].
-  Proof.
-    intros Hhit Hfind Hq Hh. unfold H.handshake, H.get_cert in Hh. rewrite Hhit, Hfind in Hh.
-    destruct (H.c_managed c && H.od_on w && true) eqn:E; [|inv Hh; split; reflexivity].
-    assert (M : H.c_managed c = true) by (destruct (H.c_managed c); [reflexivity | discriminate]).
-    rewrite M in Hq. cbn [andb] in Hq. apply Bool.orb_false_elim in Hq as [Hdue Hrev].
-    destruct (H.maintenance is_space (H.load_and_maintain is_space H.fuel0) w h c false) as [[[e1 k1] r1] w2] eqn:E1.
-    apply maint_not_due in E1 as [-> ->]; [|exact Hdue|exact Hrev]. inv Hh. split; reflexivity.
-  Qed.
-
   Definition covered_by_yes := CM.Props.C02.covered_by_yes.
 
   Theorem on_demand_end_to_end cap w s cfg sni ip nm m ok vanish own kids res w' :
@@ -266,14 +242,13 @@ Section Compose.
       pose proof (hit_key_of_lookup cap w s cfg sni ip nm m ok vanish HR) as HK. cbv zeta in HK.
       change (H.hit_key w h = hk) in HK. rewrite HK in G. exact G.
     - intros cc v Hfc.
-      destruct (hit_oracle_from_C03 eh eh_inj names_of lower is_space sup valid cap w s cfg sni ip cc true v HR Hfc)
-        as (c & Hc & Hfind & Hv & Hcase).
-      pose proof (refine_find eh eh_inj names_of cap w s (h_id c) HR) as Hrf. rewrite Hfind in Hrf.
+      edestruct (hit_oracle_from_C03 eh) as (c & Hc & Hfind & Hv & Hcase); try first [exact eh_inj | exact HR | exact Hfc].
+      epose proof (refine_find eh eh_inj _ _ w s (h_id c) HR) as Hrf. rewrite Hfind in Hrf.
       split; [rewrite <- Hc; exact Hrf|]. split; [rewrite <- Hc; exact Hv|]. split.
       + cbv zeta in Hcase |- *. destruct Hcase as [(_ & A & B)|[(_ & A & B)|[(A & _)|(A & _)]]];
           [left; auto | right; auto | discriminate | discriminate].
       + exists c. split; [exact Hc|]. split; [exact Hfind|]. intros Hq.
-        apply (hit_served_as_is w h (h_id c) c own kids res w'); [|exact Hfind|exact Hq|exact Hh].
+        apply (hit_served_as_is is_space w h (h_id c) c own kids res w'); [|exact Hfind|exact Hq|exact Hh].
         unfold h, hello_of. cbn [H.h_hit]. fold fc. rewrite Hfc. f_equal.
         unfold id_of. rewrite <- Hc. apply dh_eh.
     - intros Hno. unfold hk, lookup_hit_key. destruct fc as [[[cc [|]] v]|]; try reflexivity.
@@ -357,7 +332,7 @@ Definition y_hs1 (sni : str) (nm : option H.name) :=
   let fc := from_cache ascii_lower ascii_space (fun _ => true) (fun _ => true) y_s1 y_cfg sni [] in
   let h := hello_of dheh fc nm H.MgrNone true false in
   (let '(_, _, r, _) := H.handshake ascii_space y_w1 h in r,
-   lookup ascii_lower ascii_space (fun _ => true) (fun _ => true) y_s1 2 y_cfg sni [] (env_of heh ascii_space y_w1 h)).
+   lookup ascii_lower ascii_space (fun _ => true) (fun _ => true) y_s1 2 y_cfg sni [] (env_of_handshake heh ascii_space y_w1 h)).
 
 (** the hypotheses of [od_off_handshake_is_lookup] hold of this world, and the answers are:
     " A.x " -> the cached a.x; q.y -> the bundle loaded from storage (cache almost full);
